@@ -172,6 +172,11 @@ func (r *roundRobinSelector) AddNode(node *databasev1.Node) {
 	}
 	r.mu.Lock()
 	defer r.mu.Unlock()
+	// A node may be announced more than once (e.g. its metadata is updated). Keep a single entry so that
+	// the placement depends only on the set of nodes and a single RemoveNode drops it.
+	if slices.Contains(r.nodes, node.Metadata.Name) {
+		return
+	}
 	r.nodes = append(r.nodes, node.Metadata.Name)
 	sort.StringSlice(r.nodes).Sort()
 }
